@@ -5,10 +5,12 @@
 package c21
 
 import (
+	"bytes"
 	"encoding/json"
 	"fmt"
 
 	"github.com/sarchlab/akita/v5/hooking"
+	"github.com/sarchlab/akita/v5/mem/memcontrolprotocol"
 	"github.com/sarchlab/akita/v5/mem/memprotocol"
 	"github.com/sarchlab/akita/v5/mem/rob"
 	"github.com/sarchlab/akita/v5/mem/vm"
@@ -47,12 +49,23 @@ type BotRsp struct {
 	Data []byte `json:"data,omitempty"`
 }
 
+// CtlReq is a message delivered to the Control port: a memcontrolprotocol.Req with command Cmd
+// (0 Pause, 1 Drain, 2 Enable, 3 Reset, 4 Invalidate, 5 Flush), or another message type (Cmd < 0).
+type CtlReq struct {
+	ID  uint64 `json:"id"`
+	Src int    `json:"src"`
+	Cmd int    `json:"cmd"`
+}
+
 // Instant is one scripted tick.
 type Instant struct {
+	Ckpt     bool     `json:"ckpt,omitempty"` // SaveCheckpoint + LoadCheckpoint of the component first
 	Top      []TopReq `json:"top"`
 	Bot      []BotRsp `json:"bot"`
+	Ctl      []CtlReq `json:"ctl,omitempty"`
 	DrainTop int      `json:"dt"`
 	DrainBot int      `json:"db"`
+	DrainCtl int      `json:"dc"`
 }
 
 type input struct {
@@ -60,6 +73,7 @@ type input struct {
 	Width  int       `json:"width"`
 	TCap   int       `json:"tcap"`
 	BCap   int       `json:"bcap"`
+	CCap   int       `json:"ccap"`
 	Script []Instant `json:"script"`
 }
 
@@ -69,9 +83,12 @@ type tickObs struct {
 	Progress bool     `json:"progress"`
 	Top      []string `json:"top"`
 	Bot      []string `json:"bot"`
+	Ctl      []string `json:"ctl"`
 	NTrans   int      `json:"ntrans"`
+	CState   int      `json:"cstate"`
 	NTopDel  int      `json:"ntopdel"`
 	NBotDel  int      `json:"nbotdel"`
+	NCtlDel  int      `json:"nctldel"`
 	BotIDs   []uint64 `json:"botids"` // resolved (relative) RspTo of the scripted Bottom responses
 }
 
@@ -100,7 +117,7 @@ func execute(in input) ([]tickObs, error) {
 	}
 	top := mk("Top", in.TCap)
 	bot := mk("Bottom", in.BCap)
-	mk("Control", 2)
+	ctl := mk("Control", in.CCap)
 
 	// The engine is never run: the first wake-up schedules the one pending tick event (which
 	// takes an ID); every later wake-up is deduplicated. Trigger it before the IDs are based.
@@ -110,7 +127,16 @@ func execute(in input) ([]tickObs, error) {
 	var seen []uint64 // real ids of the shadow requests drained from Bottom
 	var out []tickObs
 	for _, st := range in.Script {
-		ob := tickObs{Top: []string{}, Bot: []string{}, BotIDs: []uint64{}}
+		ob := tickObs{Top: []string{}, Bot: []string{}, Ctl: []string{}, BotIDs: []uint64{}}
+		if st.Ckpt {
+			var buf bytes.Buffer
+			if err := comp.SaveCheckpoint(&buf); err != nil {
+				return nil, fmt.Errorf("SaveCheckpoint: %v", err)
+			}
+			if err := comp.LoadCheckpoint(&buf); err != nil {
+				return nil, fmt.Errorf("LoadCheckpoint: %v", err)
+			}
+		}
 		for _, q := range st.Top {
 			if !top.CanDeliver() {
 				break
@@ -149,8 +175,36 @@ func execute(in input) ([]tickObs, error) {
 			}
 			ob.NBotDel++
 		}
+		for _, k := range st.Ctl {
+			if !ctl.CanDeliver() {
+				break
+			}
+			meta := messaging.MsgMeta{ID: k.ID, Src: messaging.RemotePort(fmt.Sprintf("K%d", k.Src)), Dst: ctl.AsRemote()}
+			if k.Cmd >= 0 {
+				ctl.Deliver(memcontrolprotocol.Req{MsgMeta: meta, Command: memcontrolprotocol.Command(k.Cmd)})
+			} else {
+				ctl.Deliver(memprotocol.ReadReq{MsgMeta: meta})
+			}
+			ob.NCtlDel++
+		}
 		ob.Progress = comp.Tick()
 		ob.NTrans = len(comp.State.Transactions)
+		ob.CState = int(comp.State.ControlState)
+		for i := 0; i < st.DrainCtl; i++ {
+			m := ctl.RetrieveOutgoing()
+			if m == nil {
+				break
+			}
+			r, ok := m.(memcontrolprotocol.Rsp)
+			if !ok {
+				return nil, fmt.Errorf("unexpected control message %T", m)
+			}
+			var dst int
+			if _, err := fmt.Sscanf(string(r.Dst), "K%d", &dst); err != nil || r.Src != ctl.AsRemote() {
+				dst = 999999
+			}
+			ob.Ctl = append(ob.Ctl, hx.App("mk_crsp", hx.N(rel(r.ID)), hx.N(uint64(dst)), hx.N(r.RspTo), hx.N(uint64(r.Command)), hx.B(r.Success)))
+		}
 		for i := 0; i < st.DrainTop; i++ {
 			m := top.RetrieveOutgoing()
 			if m == nil {
@@ -224,6 +278,9 @@ func run(raw json.RawMessage) (hx.Case, error) {
 	if err := hx.UJ(raw, &in); err != nil {
 		return hx.Case{}, err
 	}
+	if in.CCap < 1 {
+		in.CCap = 2
+	}
 	if in.TCap < 1 || in.BCap < 1 {
 		return hx.Case{}, fmt.Errorf("port capacities must be positive")
 	}
@@ -234,6 +291,7 @@ func run(raw json.RawMessage) (hx.Case, error) {
 	script := make([]string, len(in.Script))
 	ticks := make([]string, len(obs))
 	nrsp, nshadow, reorder, dup := 0, 0, false, false
+	nreset, npause, nckpt := 0, 0, 0
 	lastK := -1
 	seenK := map[int]bool{}
 	for i, st := range in.Script {
@@ -261,20 +319,47 @@ func run(raw json.RawMessage) (hx.Case, error) {
 			seenK[b.K] = true
 			lastK = b.K
 		}
-		script[i] = hx.App("mk_instant", hx.L(qs), hx.L(bs), hx.Nat(st.DrainTop), hx.Nat(st.DrainBot))
-		ticks[i] = hx.App("mk_tobs", hx.B(obs[i].Progress), hx.L(obs[i].Top), hx.L(obs[i].Bot), hx.N(uint64(obs[i].NTrans)),
-			hx.Nat(obs[i].NTopDel), hx.Nat(obs[i].NBotDel))
+		cs := make([]string, len(st.Ctl))
+		for j, k := range st.Ctl {
+			if k.Cmd >= 0 {
+				cs[j] = hx.App("CReq", hx.N(k.ID), hx.N(uint64(k.Src)), hx.N(uint64(k.Cmd)))
+			} else {
+				cs[j] = "COther"
+			}
+			switch k.Cmd {
+			case 3:
+				nreset++
+			case 0, 1:
+				npause++
+			}
+		}
+		if st.Ckpt {
+			nckpt++
+		}
+		script[i] = hx.App("mk_instant", hx.B(st.Ckpt), hx.L(qs), hx.L(bs), hx.L(cs), hx.Nat(st.DrainTop), hx.Nat(st.DrainBot), hx.Nat(st.DrainCtl))
+		ticks[i] = hx.App("mk_tobs", hx.B(obs[i].Progress), hx.L(obs[i].Top), hx.L(obs[i].Bot), hx.L(obs[i].Ctl),
+			hx.N(uint64(obs[i].NTrans)), hx.N(uint64(obs[i].CState)),
+			hx.Nat(obs[i].NTopDel), hx.Nat(obs[i].NBotDel), hx.Nat(obs[i].NCtlDel))
 		nrsp += len(obs[i].Top)
 		nshadow += len(obs[i].Bot)
 	}
 	c := hx.Case{Obs: obs}
-	c.Coq = hx.App("mk_case", hx.Z(int64(in.Size)), hx.Z(int64(in.Width)), hx.N(uint64(in.TCap)), hx.N(uint64(in.BCap)),
+	c.Coq = hx.App("mk_case", hx.Z(int64(in.Size)), hx.Z(int64(in.Width)), hx.N(uint64(in.TCap)), hx.N(uint64(in.BCap)), hx.N(uint64(in.CCap)),
 		hx.L(script), hx.L(ticks))
 	if reorder {
 		c.Tags = append(c.Tags, "out-of-order-completion")
 	}
 	if dup {
 		c.Tags = append(c.Tags, "duplicate-answers")
+	}
+	if nreset > 0 {
+		c.Tags = append(c.Tags, "reset")
+	}
+	if npause > 0 {
+		c.Tags = append(c.Tags, "pause/drain")
+	}
+	if nckpt > 0 {
+		c.Tags = append(c.Tags, "checkpoint-roundtrip")
 	}
 	if in.TCap <= 2 || in.BCap <= 2 {
 		c.Tags = append(c.Tags, "port-backpressure")
